@@ -4,7 +4,7 @@ from __future__ import annotations
 from fractions import Fraction
 
 from .. import envstream as es
-from ..core import F, fr
+from ..core import F, fr, us
 from ..runner import Prop
 
 
@@ -62,7 +62,13 @@ class C09(Prop):
         if rng.random() < 0.25:
             # exact family: no spread, no fees, a spot contract quoted at 100 and a gap that makes NLV *exactly* 0
             # (2x long and the price halves, 4x long and -25%, 1x short and the price doubles)
-            L, ruin = rng.choice([(2, "50"), (4, "75"), (-1, "200")])
+            # ... or the asset goes to exactly zero / its bids vanish at zero while an offer remains (NLV < 0)
+            options = [(2, "50", "50"), (4, "75", "75"), (-1, "200", "200")]
+            if case["delay"] == 0 and j >= 2:
+                # (only once a position is open: sizing a purchase at a zero price divides by zero in the library, which
+                # is not what this property is about)
+                options += [(2, "0", "0"), (3, "0", "1")]
+            L, ruin, ruin_ask = rng.choice(options)
             case["contracts"] = [dict(key=k0, kind="ETF")] + case["contracts"][1:]
             case["fees"] = ["0", "0", "0"]
             case["space"] = dict(kind="box", low="-5", high="5", keys=keys, asWeights=1, fractional=1, margin="0")
@@ -70,8 +76,8 @@ class C09(Prop):
             for e in evs:
                 if e[0] == "q" and e[1] == k0:
                     latent_copy = mode == "latent" and lat > 0 and e[2] == grid[j - 1] + max(1, lat // 2)
-                    px = ruin if (e[2] >= grid[j] or latent_copy) else "100"
-                    evs2.append(["q", k0, e[2], px, px])
+                    gone = e[2] >= grid[j] or latent_copy
+                    evs2.append(["q", k0, e[2], ruin if gone else "100", ruin_ask if gone else "100"])
                 else:
                     evs2.append(e)
             case["events"] = evs2
@@ -90,7 +96,7 @@ class C09(Prop):
 
     def run_impl(self, case):
         r, s = es.run_case(case, self.COMPARE)
-        if s.env is None:
+        if s.env is None or not s.obs:
             return r
         steps = [o for o in s.obs if o["op"][0] != "reset"]
         if any(o.get("nlv") is not None and 0 < abs(o["nlv"]) < Fraction(1, 10**6) for o in s.obs):
@@ -100,6 +106,30 @@ class C09(Prop):
             return r
         ended = False
         prev_nlv = s.obs[0].get("nlv")
+
+        def ledger_nlv(o):
+            """NLV recomputed from the holdings and the last quotes of the *input* stream (fully-paid contracts only):
+            independent of the valuation under test"""
+            if o.get("now") is None or any(c.get("kind") not in ("ETF", "Index", "Stock") for c in case["contracts"]):
+                return None
+            now = us(o["now"])
+            tot = o.get("cash")
+            if tot is None:
+                return None
+            for k, q in o["pos"].items():
+                if q == 0:
+                    continue
+                qs = [e for e in case["events"] if e[0] == "q" and e[1] == k and e[2] <= now]
+                if not qs:
+                    return None
+                last = max(qs, key=lambda e: e[2])
+                px = last[3] if q > 0 else last[4]
+                if px == "nan":
+                    return None
+                tot += q * Fraction(px)
+            return tot
+
+        prev_ledger = ledger_nlv(s.obs[0])
         for i, o in enumerate(steps):
             st = o["status"]
             nlv = o.get("nlv")
@@ -119,6 +149,12 @@ class C09(Prop):
                     r.fail("non-positive-nlv-reported", step=i, nlv=float(nlv), theorem="raising_valuation_positive")
                 if o["done"]:
                     ended = True
+            elif st == "err rejected" and prev_ledger is not None and prev_ledger <= 0 and not o["log"] and not o["done_flag"]:
+                # the account was insolvent when the decision was due (by the independent ledger; no latent event could
+                # have rescued it): the step must end the episode, not fail with some other error and leave it running
+                r.fail("insolvent-decision-did-not-end-episode", step=i, nlv_before=float(prev_ledger), error=o.get("exc"),
+                       theorem="insolvent_decision_ends_episode / valuation_raises_iff",
+                       clause="valuation signals end-of-episode ...; a decision arriving in that state ... ends the episode")
             elif st == "err eoe":
                 r.tags.add("ruin-first-step" if i == 0 else "ruin-later")
                 if not traded:
@@ -138,6 +174,7 @@ class C09(Prop):
                     if o["done_flag"]:
                         ended = True
             prev_nlv = nlv
+            prev_ledger = ledger_nlv(o)
         return r
 
     def classify(self, failure, case):
